@@ -17,6 +17,7 @@ import (
 
 	"verif/harness/internal/eng"
 	"verif/harness/internal/hx"
+	"verif/harness/internal/nsim"
 	"verif/harness/internal/sim"
 )
 
@@ -32,18 +33,32 @@ type kubeObs struct {
 	ErrText string                       `json:"err_text,omitempty"`
 	Before  map[string]map[string]string `json:"before"`
 	Objs    map[string]map[string]string `json:"objs"`
-	Muts    []sim.Mut                    `json:"muts,omitempty"`
+	Muts    []nsim.Mut                   `json:"muts,omitempty"`
 	Created []string                     `json:"created,omitempty"`
 	Updated []string                     `json:"updated,omitempty"`
 	Deleted []string                     `json:"deleted,omitempty"`
 	Panic   string                       `json:"panic,omitempty"`
 }
 
+// A resource outside the default namespace is spelled Kind = "<ns>/Kind" (so that its key
+// Kind/name reads <ns>/Kind/name, which is also the key of the namespaced store nsim and of the
+// Coq model, where keys are opaque strings); its YAML document carries metadata.namespace.
+func nsRes(ns, kind, name string, kv ...string) eng.Res {
+	r := cm(name, kv...)
+	r.Kind = ns + "/" + kind
+	return r
+}
+
 func c02YAML(rs []eng.Res) string {
 	var b strings.Builder
 	for _, r := range rs {
-		o := sim.Object(r.Kind, r.Name, r.Fields)
-		delete(o["metadata"].(map[string]interface{}), "namespace")
+		ns, kind := nsim.SplitKind(r.Kind)
+		o := sim.Object(kind, r.Name, r.Fields)
+		md := o["metadata"].(map[string]interface{})
+		delete(md, "namespace")
+		if ns != "default" {
+			md["namespace"] = ns
+		}
 		y, _ := yaml.Marshal(o)
 		b.WriteString("\n---\n")
 		b.Write(y)
@@ -54,14 +69,14 @@ func c02YAML(rs []eng.Res) string {
 func infoKeys(rl kube.ResourceList) []string {
 	var out []string
 	for _, i := range rl {
-		out = append(out, i.Mapping.GroupVersionKind.Kind+"/"+i.Name)
+		out = append(out, nsim.Key(i.Namespace, i.Mapping.GroupVersionKind.Kind, i.Name))
 	}
 	sort.Strings(out)
 	return out
 }
 
 func kubeExecute(c *kubeCase) (o kubeObs) {
-	srv := sim.New()
+	srv := nsim.New()
 	for _, l := range c.Live {
 		srv.Put(l.Kind, l.Name, l.Fields)
 	}
@@ -130,11 +145,14 @@ func kubeExecute(c *kubeCase) (o kubeObs) {
 
 var c02Pool = []struct{ Kind, Name string }{
 	{"ConfigMap", "a"}, {"ConfigMap", "b"}, {"ConfigMap", "c"}, {"ConfigMap", "d"}, {"Secret", "s"}, {"Secret", "t"}, {"ServiceAccount", "sa"},
+	// twins: same kind and name as an entry above, in another namespace
+	{"other/ConfigMap", "a"}, {"other/ConfigMap", "b"}, {"other/Secret", "s"}, {"other/ServiceAccount", "sa"},
 }
 
 var c02B64 = []string{"YQ==", "Yg==", "Yw==", "ZGVm"}
 
 func c02Val(r *rand.Rand, kind, field string) string {
+	_, kind = nsim.SplitKind(kind)
 	switch {
 	case strings.HasPrefix(field, "d:") && kind == "Secret":
 		return c02B64[r.Intn(len(c02B64))]
@@ -147,6 +165,7 @@ func c02Val(r *rand.Rand, kind, field string) string {
 }
 
 func c02FieldNames(kind string) []string {
+	_, kind = nsim.SplitKind(kind)
 	f := []string{"l:tier", "l:app", "a:note", "a:team"}
 	switch kind {
 	case "ConfigMap":
@@ -159,7 +178,8 @@ func c02FieldNames(kind string) []string {
 
 var c02Policies = []string{"keep", "keep", "Keep ", "delete", "KEEP"}
 
-func c02GenFields(r *rand.Rand, kind string) map[string]string {
+func c02GenFields(r *rand.Rand, nskind string) map[string]string {
+	_, kind := nsim.SplitKind(nskind)
 	f := map[string]string{}
 	for _, n := range c02FieldNames(kind) {
 		p := 3
@@ -249,6 +269,7 @@ func c02Mutate(r *rand.Rand, kind string, o map[string]string) map[string]string
 }
 
 func c02DriftVal(kind, field string) string {
+	_, kind = nsim.SplitKind(kind)
 	if kind == "Secret" && strings.HasPrefix(field, "d:") {
 		return "RFJJRlQ="
 	}
@@ -292,7 +313,7 @@ func c02Live(r *rand.Rand, kind string, o, t map[string]string) map[string]strin
 		}
 	}
 	if r.Intn(3) == 0 {
-		if kind != "ServiceAccount" {
+		if _, bare := nsim.SplitKind(kind); bare != "ServiceAccount" {
 			l["d:foreign"] = c02DriftVal(kind, "d:foreign")
 		}
 		if r.Intn(2) == 0 {
@@ -420,6 +441,20 @@ func kubeCorpus() []any {
 			Orig: []eng.Res{cm("a", "d:k", "v1")},
 			Tgt:  []eng.Res{cm("a", "d:k", "v2"), cm("b", "d:k", "v2")},
 			Live: []eng.Res{cm("a", "d:k", "v1"), cm("b", "d:k", "v0")}}},
+		// twins: same kind and name in two namespaces.  The new manifest drops the one in "other": it must be
+		// deleted, the one in "default" patched (ResourceList.Difference/Get must compare the namespace)
+		c02Case{Kube: &kubeCase{Verb: "update",
+			Orig: []eng.Res{cm("a", "d:k", "v1"), nsRes("other", "ConfigMap", "a", "d:k", "w1")},
+			Tgt:  []eng.Res{cm("a", "d:k", "v2")},
+			Live: []eng.Res{cm("a", "d:k", "v1"), nsRes("other", "ConfigMap", "a", "d:k", "w1"), nsRes("third", "ConfigMap", "a", "d:k", "bystander")}}},
+		// twins that both stay: each is patched against ITS OWN old manifest entry (the one in "other" loses d:y,
+		// which only its own old entry names; the one in "default" keeps its foreign d:y)
+		c02Case{Kube: &kubeCase{Verb: "update",
+			Orig: []eng.Res{cm("a", "d:k", "v1", "d:x", "1"), nsRes("other", "ConfigMap", "a", "d:k", "w1", "d:y", "1")},
+			Tgt:  []eng.Res{cm("a", "d:k", "v2", "d:x", "1"), nsRes("other", "ConfigMap", "a", "d:k", "w2")},
+			Live: []eng.Res{cm("a", "d:k", "v1", "d:x", "1", "d:y", "foreign"), nsRes("other", "ConfigMap", "a", "d:k", "w1", "d:y", "1")}}},
+		c02Case{Kube: &kubeCase{Verb: "delete", Tgt: []eng.Res{nsRes("other", "ConfigMap", "a", "d:k", "w1")},
+			Live: []eng.Res{cm("a", "d:k", "v1"), nsRes("other", "ConfigMap", "a", "d:k", "w1")}}},
 		c02Case{Kube: &kubeCase{Verb: "create", Tgt: []eng.Res{cm("a", "d:k", "v1"), cm("b", "d:k", "v1")}, Live: []eng.Res{cm("z", "d:k", "v")}}},
 		c02Case{Kube: &kubeCase{Verb: "create", Tgt: []eng.Res{cm("a", "d:k", "v1"), cm("b", "d:k", "v1")}, Live: []eng.Res{cm("b", "d:k", "v")}}},
 		c02Case{Kube: &kubeCase{Verb: "delete", Tgt: []eng.Res{cm("a", "d:k", "v1"), cm("b", "d:k", "v1")}, Live: []eng.Res{cm("b", "d:k", "v"), cm("z", "d:k", "v")}}},
